@@ -8,6 +8,7 @@
     loop uses, [fresh_top]: cell N/2 of _wakelosses, which that loop never writes, is zero (fresh
     object), [wake_model] the per-bunch read-back times the scaling. *)
 From Coq Require Import List ZArith QArith Qcanon Reals Lia.
+From Inovesa Require Model.Pow2Ops Gen.Gen_Pow2 Proofs.Pow2GenP.
 From Inovesa Require Import Base.FieldKit Base.Sums Base.RInst Base.Float32 Model.DFT
   Proofs.DFTP Proofs.DFTInst Proofs.DFTThm Proofs.PadLenP.
 Import ListNotations.
@@ -111,6 +112,19 @@ Theorem C06_upper_power_of_two :
   forall v, 1 <= v <= 2 ^ 63 -> upper_power_of_two v = 2 ^ Z.log2_up v.
 Proof. exact upper_power_of_two_spec. Qed.
 Print Assumptions C06_upper_power_of_two.
+
+(** 3b'. ... and that is what the SOURCE computes: the operation list read from vfps::upper_power_of_two on every run
+    (Gen/Gen_Pow2.v, translate/pow2coq.py: v--, the six or-shift stages, v++, executed on a 64-bit register with the
+    wrap-around written out) is, for EVERY argument, the function the padded-length theorems are about. *)
+Theorem C06_upper_power_of_two_generated :
+  forall v, Pow2Ops.run_uops Gen_Pow2.gen_upow2_ops v = upper_power_of_two v.
+Proof. exact Pow2GenP.gen_upow2_is_model_dft. Qed.
+Print Assumptions C06_upper_power_of_two_generated.
+
+Theorem C06_upper_power_of_two_generated_spec :
+  forall v, 1 <= v <= 2 ^ 63 -> Pow2Ops.run_uops Gen_Pow2.gen_upow2_ops v = 2 ^ Z.log2_up v.
+Proof. exact Pow2GenP.gen_upow2_spec. Qed.
+Print Assumptions C06_upper_power_of_two_generated_spec.
 
 (** the hypotheses are satisfiable: the real table for every N, an exact rational table for N = 4 *)
 Theorem C06_real_table :
